@@ -53,12 +53,12 @@ Definition jobs_eqb (a b : jobs) : bool :=
 
 (* ---------- model ---------- *)
 Definition model_run (c : jcase) (d : mdomain) (r : jrun) : jobs :=
-  jobs_of (apply_actions d (j_eps c) (Some (j_objs c)) id_schedule {| ms_init := true; ms_st := j_state c |}
+  jobs_of (apply_actions d (j_eps c) (Some (quantification_objects d (j_objs c))) id_schedule {| ms_init := true; ms_st := j_state c |}
                          (map acall_of (r_members r)) (r_allow r)).
 
 Definition model_jtrace (c : jcase) : result (list jtriplet) :=
   do d <- j_mdomain c;
-  parse_joint_plan d (j_eps c) (j_exporter_allow c) (j_objs c) (fun _ => id_schedule) (j_allow c) (j_state c) (j_lines c).
+  parse_joint_plan d (j_eps c) (j_exporter_allow c) (quantification_objects d (j_objs c)) (fun _ => id_schedule) (j_allow c) (j_state c) (j_lines c).
 
 Definition jexport_matches (c : jcase) (expected : option (list xitem)) : bool :=
   match j_export c, expected with
@@ -94,7 +94,7 @@ Section SpecJoint.
   Variable c : jcase.
   Variable d : sdomain.
   Let tt := spec_tt d.
-  Let objs := j_objs c.
+  Let objs := dupdate (sd_consts d) (j_objs c).   (* constants + objects: what quantifiers range over (D30) *)
   Let eps := j_eps c.
 
   Definition ni (ms : list member) : bool := pairwise_non_interfering tt objs ms.
